@@ -74,6 +74,74 @@ def check_kernels(ctx: Ctx) -> None:
         params = [a.arg for a in der.args.args if a.arg not in ("cls", "self")]
         ctx.ob("18.1-signature", con, params == ["input_data", "norm_input_data", "eps"], f"der_{name} must take (input_data, norm_input_data, eps), the way _predict_jacobian calls it", node=der, stmt=f"der_{name}(input_data, norm_input_data, eps)")
     ctx.floor("18.1-epsilon", 7)
+    # the derivative function is the derivative of SciPy's kernel: d h(|x|)/dx = h'(r) x / r  (generic point r > 0)
+    import sympy as sp
+
+    x, r, eps = sp.Symbol("x", real=True), sp.Symbol("r", positive=True), sp.Symbol("eps", positive=True)
+
+    def term(e, env):
+        if isinstance(e, ast.Constant) and isinstance(e.value, (int, float)) and not isinstance(e.value, bool):
+            return sp.nsimplify(e.value)
+        if isinstance(e, ast.Name):
+            return env.get(e.id)
+        if isinstance(e, ast.Attribute):
+            if e.attr == "TOL":
+                return sp.Integer(0)  # a guard against 0/0 at r = 0, irrelevant at a generic point
+            if e.attr == "epsilon" and dotted(e.value) == "self":
+                return eps
+            return None
+        if isinstance(e, ast.Compare):
+            return sp.Integer(1)  # `r > TOL` is true at a generic point
+        if isinstance(e, ast.UnaryOp) and isinstance(e.op, (ast.USub, ast.UAdd)):
+            v = term(e.operand, env)
+            return None if v is None else (-v if isinstance(e.op, ast.USub) else v)
+        if isinstance(e, ast.BinOp):
+            a, b = term(e.left, env), term(e.right, env)
+            if a is None or b is None:
+                return None
+            ops = {ast.Add: lambda: a + b, ast.Sub: lambda: a - b, ast.Mult: lambda: a * b, ast.Div: lambda: a / b, ast.Pow: lambda: a**b}
+            f_ = ops.get(type(e.op))
+            return f_() if f_ else None
+        if isinstance(e, ast.Call) and not e.keywords:
+            fn = last_attr(e) or dotted(e.func)
+            args = [term(a, env) for a in e.args]
+            if any(a is None for a in args):
+                return None
+            if fn == "sqrt" and len(args) == 1:
+                return sp.sqrt(args[0])
+            if fn == "exp" and len(args) == 1:
+                return sp.exp(args[0])
+            if fn == "log" and len(args) == 1:
+                return sp.log(args[0])
+            if fn == "xlogy" and len(args) == 2:
+                return args[0] * sp.log(args[1])
+        return None
+
+    def single_return(fn):
+        rets = [s for s in stmts_of(fn) if isinstance(s, ast.Return) and s.value is not None]
+        return rets[0].value if len(rets) == 1 else None
+
+    n_der = 0
+    for name in names:
+        der, k = ders.methods.get(f"der_{name}"), kernels.get(name)
+        if der is None or k is None:
+            continue
+        con = cname(RBF, "RBFRegressor.RBFDerivatives", f"der_{name}")
+        kr, dr = single_return(k), single_return(der)
+        h = term(kr, {k.args.args[1].arg: r}) if kr is not None else None
+        d = term(dr, {"input_data": x, "norm_input_data": r, "eps": eps}) if dr is not None else None
+        if h is None:
+            raise AnalysisError(f"SciPy kernel _h_{name} is not an expression the derivative rule understands")
+        if d is None:
+            ctx.ob("18.1-derivative", con, False, f"der_{name} is not a closed-form expression of (input_data, norm_input_data, eps) that can be compared with the derivative of SciPy's kernel", node=der, stmt=f"der_{name} = d _h_{name}(|x|) / dx")
+            continue
+        want = sp.diff(h, r) * x / r
+        from gv import symexpr
+
+        eq = symexpr.equal(d, want, positive=("r", "eps"))
+        n_der += 1
+        ctx.ob("18.1-derivative", con, eq is True, f"der_{name} = {sp.simplify(d)} but the derivative of SciPy's kernel h(r) = {h} with respect to x is h'(r) x / r = {sp.simplify(want)}: the predicted Jacobian is not the derivative of the prediction", node=der, stmt=f"der_{name} = d _h_{name}(|x|) / dx")
+    ctx.floor("18.1-derivative", 7)
     extra = sorted(set(m[4:] for m in ders.methods if m.startswith("der_")) - set(names))
     ctx.ob("18.1-exists", cname(RBF, "RBFRegressor.RBFDerivatives"), not extra, f"derivatives without a kernel of that name: {extra}", node=ders.node, stmt="no orphan derivative")
     # the Jacobian routine
@@ -130,13 +198,117 @@ def check_surrogate(ctx: Ctx) -> None:
     ctx.ob("18.2-jacobian", cong, not others, "the predicted Jacobian must not be altered", node=(others or [g])[0], stmt="no further edit of self.jac")
 
 
+PIP = "mlearning/transformers/pipeline.py"
+MOE = "mlearning/regression/algos/moe.py"
+
+
+def check_pipeline(ctx: Ctx) -> None:
+    """18.3 chain rule of a pipeline of transformers: J = J_k(data_k) ... J_1(data_1), each stage at its own input."""
+    cls = ctx.index.cls(PIP, "Pipeline")
+    for jname, tname, reverse in (("compute_jacobian", "transform", False), ("compute_jacobian_inverse", "inverse_transform", True)):
+        f = cls.methods[jname]
+        con = cname(PIP, "Pipeline", jname)
+        data = [a.arg for a in f.args.args if a.arg != "self"][0]
+        loops = [s for s in stmts_of(f) if isinstance(s, ast.For)]
+        ok = len(loops) == 1 and isinstance(loops[0].target, ast.Name)
+        order_ok = prod_ok = at_ok = False
+        if ok:
+            lp = loops[0]
+            t = lp.target.id
+            it = norm_stmt(lp.iter)
+            order_ok = it in (("self.transformers[::-1]", "reversed(self.transformers)") if reverse else ("self.transformers",))
+            jac_st = [s for s in lp.body if isinstance(s, ast.Assign) and any(isinstance(c, ast.Call) and norm_stmt(c.func) == f"{t}.{jname}" for c in ast.walk(s.value))]
+            dat_st = [s for s in lp.body if isinstance(s, ast.Assign) and dotted(s.targets[0]) == data and isinstance(s.value, ast.Call) and norm_stmt(s.value.func) == f"{t}.{tname}"]
+            if len(jac_st) == 1 and len(dat_st) == 1:
+                js = jac_st[0]
+                acc = dotted(js.targets[0])
+                v = js.value
+                # new stage on the left: J_stage @ acc   (or matmul / dot forms)
+                if isinstance(v, ast.BinOp) and isinstance(v.op, ast.MatMult):
+                    left, right = v.left, v.right
+                elif isinstance(v, ast.Call) and last_attr(v) in ("matmul", "dot") and len(v.args) == 2:
+                    left, right = v.args
+                elif isinstance(v, ast.Call) and last_attr(v) == "dot" and len(v.args) == 1:
+                    left, right = v.func.value, v.args[0]
+                else:
+                    left = right = None
+                prod_ok = left is not None and isinstance(left, ast.Call) and norm_stmt(left.func) == f"{t}.{jname}" and dotted(right) == acc
+                at_ok = prod_ok and left.args and dotted(left.args[0]) == data and dotted(dat_st[0].value.args[0]) == data and js.lineno < dat_st[0].lineno
+        ctx.ob("18.3-pipeline", con, bool(ok and order_ok), f"{jname} must visit the transformers in the order in which {tname} applies them ({'last to first' if reverse else 'first to last'})", node=(loops or [f])[0], stmt=f"{jname}: stages in the order of {tname}")
+        ctx.ob("18.3-pipeline", con, bool(prod_ok), "chain rule: the Jacobian of the stage multiplies the accumulated Jacobian on the LEFT (J_stage @ J); the other order is only right when the stage Jacobians commute", node=(loops or [f])[0], stmt=f"{jname}: J = J_stage @ J")
+        ctx.ob("18.3-pipeline", con, bool(at_ok), "each stage Jacobian is evaluated at the data entering that stage: the Jacobian statement comes before the data is transformed, both on the running data", node=(loops or [f])[0], stmt=f"{jname}: stage Jacobian at the stage input")
+        g = cls.methods[tname]
+        lg = [s for s in stmts_of(g) if isinstance(s, ast.For)]
+        okg = len(lg) == 1 and norm_stmt(lg[0].iter) in (("self.transformers[::-1]", "reversed(self.transformers)") if reverse else ("self.transformers",))
+        ctx.ob("18.3-pipeline", cname(PIP, "Pipeline", tname), okg, f"{tname} applies the transformers {'last to first' if reverse else 'first to last'}", node=(lg or [g])[0], stmt=f"{tname}: order of the stages")
+
+
+def check_moe(ctx: Ctx) -> None:
+    """18.4 mixture of experts (hard): the Jacobian of a point comes from the local model of its own cluster label."""
+    f = ctx.index.method(MOE, "MOERegressor", "_predict_jacobian_hard")
+    con = cname(MOE, "MOERegressor", "_predict_jacobian_hard")
+    loops = [s for s in stmts_of(f) if isinstance(s, ast.For) and isinstance(s.target, ast.Name)]
+    ok = False
+    node = f
+    for lp in loops:
+        node = lp
+        k = lp.target.id
+        it = lp.iter
+        classes = dotted(it.args[0]) if isinstance(it, ast.Call) and last_attr(it) in ("unique", "set", "sorted") and it.args else None
+        if classes is None:
+            continue
+        calls = [c for c in ast.walk(lp) if isinstance(c, ast.Call) and last_attr(c) == "predict_jacobian"]
+        sel = [s for s in lp.body if isinstance(s, ast.Assign) and isinstance(s.targets[0], ast.Name) and any(isinstance(c, ast.Compare) and {dotted(c.left), dotted(c.comparators[0])} == {classes, k} for c in ast.walk(s.value))]
+        if len(calls) != 1 or len(sel) != 1:
+            continue
+        idx = sel[0].targets[0].id
+        c = calls[0]
+        model = c.func.value
+        okm = isinstance(model, ast.Subscript) and norm_stmt(model.value) == "self.regress_models" and dotted(model.slice) == k
+        oki = bool(c.args) and isinstance(c.args[0], ast.Subscript) and dotted(c.args[0].slice) == idx
+        st = rules_enclosing(f, c)
+        okt = isinstance(st, ast.Assign) and isinstance(st.targets[0], ast.Subscript) and dotted(st.targets[0].slice) == idx
+        src = [s for s in stmts_of(f) if isinstance(s, ast.Assign) and dotted(s.targets[0]) == classes]
+        okc = len(src) == 1 and "self.classifier.predict" in norm_stmt(src[0].value)
+        ok = okm and oki and okt and okc
+    ctx.ob("18.4-moe", con, bool(ok), "the Jacobian rows of the points of cluster k must come from self.regress_models[k] (k the cluster LABEL given by the classifier), evaluated at those points and stored at their positions", node=node, stmt="Jacobian of cluster k from regress_models[k] at the points of cluster k")
+    g = ctx.index.method(MOE, "MOERegressor", "_predict_all")
+    con = cname(MOE, "MOERegressor", "_predict_all")
+    st = [s for s in ast.walk(g) if isinstance(s, ast.Assign) and isinstance(s.targets[0], ast.Subscript) and any(isinstance(c, ast.Call) and last_attr(c) == "predict" for c in ast.walk(s.value))]
+    ok = len(st) == 1
+    if ok:
+        c = next(c for c in ast.walk(st[0].value) if isinstance(c, ast.Call) and last_attr(c) == "predict")
+        i = dotted(c.func.value.slice) if isinstance(c.func.value, ast.Subscript) else None
+        tgt = st[0].targets[0]
+        sl = tgt.slice.elts[1] if isinstance(tgt.slice, ast.Tuple) and len(tgt.slice.elts) == 2 else None
+        ok = i is not None and dotted(sl) == i
+    ctx.ob("18.4-moe", con, bool(ok), "column i of the local outputs is the prediction of local model i (the probabilities that weight it are indexed by the same cluster label)", node=(st or [g])[0], stmt="local_outputs[:, i] = regress_models[i].predict")
+
+
+def rules_enclosing(f, node):
+    from gv.rules import enclosing_stmt
+
+    return enclosing_stmt(f, node)
+
+
 def run(ctx: Ctx) -> None:
     check_kernels(ctx)
     check_surrogate(ctx)
+    check_pipeline(ctx)
+    check_moe(ctx)
 
 
 _SC = "/scipy"
 WITNESSES = [
+    {"name": "multiquadric-derivative-loses-epsilon", "file": RBF, "old": "            return input_data / eps**2 / sqrt((norm_input_data / eps) ** 2 + 1)", "new": "            return input_data / sqrt(norm_input_data**2 + eps**2)", "expect": "18.1"},
+    {"name": "gaussian-derivative-sign", "file": RBF, "old": "            return -2 * input_data / eps**2 * exp(-((norm_input_data / eps) ** 2))", "new": "            return 2 * input_data / eps**2 * exp(-((norm_input_data / eps) ** 2))", "expect": "18.1"},
+    {"name": "inverse-multiquadric-exponent", "file": RBF, "old": "((norm_input_data / eps) ** 2 + 1) ** 1.5", "new": "((norm_input_data / eps) ** 2 + 1) ** 0.5", "expect": "18.1"},
+    {"name": "quintic-derivative-power", "file": RBF, "old": "            return 5 * norm_input_data**3 * input_data", "new": "            return 5 * norm_input_data**4 * input_data", "expect": "18.1"},
+    {"name": "pipeline-jacobian-right-multiplied", "file": PIP, "old": "            jacobian = transformer.compute_jacobian(data) @ jacobian", "new": "            jacobian = jacobian @ transformer.compute_jacobian(data)", "expect": "18.3"},
+    {"name": "pipeline-jacobian-at-transformed-data", "file": PIP, "old": "            jacobian = transformer.compute_jacobian(data) @ jacobian\n            data = transformer.transform(data)", "new": "            data = transformer.transform(data)\n            jacobian = transformer.compute_jacobian(data) @ jacobian", "expect": "18.3"},
+    {"name": "pipeline-inverse-jacobian-forward-order", "file": PIP, "old": "        for transformer in self.transformers[::-1]:\n            jacobian = transformer.compute_jacobian_inverse(data) @ jacobian", "new": "        for transformer in self.transformers:\n            jacobian = transformer.compute_jacobian_inverse(data) @ jacobian", "expect": "18.3"},
+    {"name": "moe-jacobian-by-loop-position", "file": MOE, "old": "        for klass in unique(classes):\n            inds_kls = (classes == klass).nonzero()[0]\n            jacobians[inds_kls] = self.regress_models[klass].predict_jacobian(", "new": "        for index, klass in enumerate(unique(classes)):\n            inds_kls = (classes == klass).nonzero()[0]\n            jacobians[inds_kls] = self.regress_models[index].predict_jacobian(", "expect": "18.4"},
+    {"name": "moe-jacobian-of-first-model", "file": MOE, "old": "            jacobians[inds_kls] = self.regress_models[klass].predict_jacobian(", "new": "            jacobians[inds_kls] = self.regress_models[0].predict_jacobian(", "expect": "18.4"},
     {"name": "cubic-divided-by-eps", "file": RBF, "old": "            return 3 * norm_input_data * input_data\n", "new": "            return 3 * norm_input_data * input_data / eps**3\n", "expect": "18.1"},
     {"name": "thin-plate-scaled-by-eps", "file": RBF, "old": "                * (1 + 2 * log(norm_input_data + cls.TOL))", "new": "                / eps**2\n                * (1 + 2 * log(norm_input_data / eps + cls.TOL))", "expect": "18.1"},
     {"name": "gaussian-ignores-eps", "file": RBF, "old": "            return -2 * input_data / eps**2 * exp(-((norm_input_data / eps) ** 2))", "new": "            return -2 * input_data * exp(-(norm_input_data**2))", "expect": "18.1"},
@@ -150,5 +322,8 @@ WITNESSES = [
     {"name": "surrogate-output-under-other-name", "file": SUR, "old": "            output_data[name] = value.flatten()", "new": "            output_data[name.lower()] = value.flatten()", "expect": "18.2"},
 ]
 TWINS = [
+    {"name": "multiquadric-derivative-rewritten", "file": RBF, "old": "            return input_data / eps**2 / sqrt((norm_input_data / eps) ** 2 + 1)", "new": "            return input_data / (eps * sqrt(norm_input_data**2 + eps**2))"},
+    {"name": "cubic-derivative-commuted", "file": RBF, "old": "            return 3 * norm_input_data * input_data", "new": "            return input_data * norm_input_data * 3"},
+    {"name": "pipeline-reversed-builtin", "file": PIP, "old": "        for transformer in self.transformers[::-1]:\n            jacobian = transformer.compute_jacobian_inverse(data) @ jacobian", "new": "        for transformer in reversed(self.transformers):\n            jacobian = transformer.compute_jacobian_inverse(data) @ jacobian"},
     {"name": "flatten-to-ravel", "file": SUR, "old": "            output_data[name] = value.flatten()", "new": "            output_data[name] = value.ravel()"},
 ]
